@@ -210,10 +210,10 @@ def check(prop, tier, seed):
     for ty in TYPES:
         reqs = random_histories(ty, 16, 12 if tier == "quick" else 60, 200 if tier == "quick" else 1000, rng)
         trace_validate(ty, 16, reqs, wd, run)
-        # one-dimension scale: 44 / 90 distinguishable elements, sets of 36+ elements extended a few elements at a time
+        # one-dimension scale: 44 / 64 distinguishable elements, sets of 36+ elements extended a few elements at a time
         if ty != "item":      # the harness has 16 distinguishable StateItem values only
-            nbig = 44 if tier == "quick" else 90      # the specification's sorting is cubic in the set size: ~0.2 s / 1 s per step
-            reqs = big_histories(ty, nbig, 2 if tier == "quick" else 12, 40 if tier == "quick" else 150, rng)
+            nbig = 44 if tier == "quick" else 64      # the specification's sorting is cubic in the set size: ~0.2 s / 0.5 s per step
+            reqs = big_histories(ty, nbig, 2 if tier == "quick" else 6, 40 if tier == "quick" else 80, rng)
             trace_validate(ty, nbig, reqs, wd, run)
     apalache(run, wd)
     run.notes["states_replayed"] = nstates
